@@ -25,7 +25,7 @@ TRUSTED = ["pyvc symbolic semantics; z3 5.1.0", "parser.normalize_imd / get_full
 ASSUMPTIONS = [
     "input space of the property: exactly one start marker followed by exactly one end marker; every instruction line whose mnemonic is mov/movl and that is followed by a directive has two operands (otherwise the code raises IndexError)",
     "match_bytes: structural bound 3 .byte lines x 4 parameters (values symbolic) - label Pb",
-    "get_line_range (str.replace/split/int on symbolic strings) and the end-to-end clauses are bounded only",
+    "get_line_range / inspect selection: the --lines string enters through ghost structure (items, kinds, numbers); the effect of str.replace/split/in/int on it is an assumed contract (A) stated in lines_ghost; the end-to-end clauses are bounded only",
 ]
 I, B = z3.IntSort(), z3.BoolSort()
 
@@ -210,6 +210,304 @@ def constants_unit(res):
     return res
 
 
+# ------------------------------------------------------------------ --lines (P, any number of items)
+# The --lines string is described by ghost structure: n >= 1 items joined by ",", item i is a single number lo(i) or a
+# range lo(i)-hi(i) / lo(i):hi(i), numbers written in decimal.  A: str.replace / str.split / "in" / int() act on such a
+# string as the classes below say (replace(":", "-") turns colon ranges into dash ranges and touches nothing else, split(",")
+# yields the items, "-" in item <=> the item is written with a dash, item.split("-") yields the two number strings,
+# int(number string) = the number; anything else is a ValueError).
+def lines_ghost():
+    kind = z3.Function("item_kind", I, I)  # 0 single, 1 dash range, 2 colon range
+    lo, hi = z3.Function("item_lo", I, I), z3.Function("item_hi", I, I)
+    n = z3.Int("n_items")
+
+    class NumStr:
+        def __init__(self, v):
+            self.v = v
+
+        def sym_int(self, ex, base):
+            if base is not None:
+                raise Unsupported("int(number, base)")
+            return SNum(self.v, True)
+
+    class ItemStr:
+        def __init__(self, i, replaced):
+            self.i, self.replaced = i, replaced
+
+        def sym_contains(self, ex, item):
+            if item == "-":
+                return SBool(kind(self.i) == 1 if not self.replaced else kind(self.i) != 0)
+            if item == ":":
+                return SBool(kind(self.i) == 2) if not self.replaced else False
+            raise Unsupported("substring test on a --lines item")
+
+        def sym_method(self, ex, name, args, kw):
+            if name == "split" and args in (["-"], [":"]):
+                dash = args == ["-"]
+                splits = ex.branch((kind(self.i) != 0) if (dash and self.replaced) else (kind(self.i) == (1 if dash else 2)) if not self.replaced else z3.BoolVal(False))
+                if splits:
+                    return [NumStr(lo(self.i)), NumStr(hi(self.i))]
+                return [self]
+            raise Unsupported("--lines item." + name)
+
+        def sym_int(self, ex, base):
+            if ex.branch(kind(self.i) == 0):
+                return SNum(lo(self.i), True)
+            raise PyRaise("ValueError", "int() of a range item")
+
+    class LinesStr:
+        def __init__(self, replaced=False):
+            self.replaced = replaced
+
+        def sym_truthy(self, ex):
+            return True
+
+        def sym_method(self, ex, name, args, kw):
+            if name == "replace" and args == [":", "-"]:
+                return LinesStr(True)
+            if name == "split" and args == [","]:
+                r = self.replaced
+                return SymSeq(n, lambda i: ItemStr(i, r))
+            raise Unsupported("--lines string." + name)
+
+    class FlatList:  # ghost for lines_int: the concatenation of the expansions of the first `count` items
+        havoc_when_passed = False
+
+        def __init__(self):
+            self.count, self.ok = z3.IntVal(0), []
+
+        def sym_havoc(self, ex, tag):
+            self.count = z3.FreshInt(tag)
+            return self
+
+        def sym_binop(self, ex, op, other, reflected):
+            import ast as _ast
+            if not isinstance(op, _ast.Add) or reflected or not isinstance(other, SymSeq):
+                raise Unsupported("lines_int operator")
+            c, j = self.count, z3.FreshInt("j")
+            want = z3.If(hi(c) + 1 > lo(c), hi(c) + 1 - lo(c), 0)
+            ex.oblige("lines_int/range-item-expands-to-lo..hi", z3.And(kind(c) != 0, other.length == want,
+                                                                     z3.Implies(z3.And(0 <= j, j < other.length), num_term(other.at(j))[0] == lo(c) + j)))
+            self.count = c + 1
+            return self
+
+        def sym_method(self, ex, name, args, kw):
+            if name == "append":
+                c = self.count
+                ex.oblige("lines_int/single-item-appends-its-number", z3.And(kind(c) == 0, num_term(args[0])[0] == lo(c)))
+                self.count = c + 1
+                return None
+            raise Unsupported("lines_int." + name)
+
+        def sym_contains(self, ex, item):
+            x, q = num_term(item)[0], z3.FreshInt("q")
+            return SBool(z3.Exists([q], z3.And(0 <= q, q < self.count, x >= lo(q), x <= z3.If(kind(q) == 0, lo(q), hi(q)))))
+
+    pre = [n >= 1]
+    q = z3.Int("q")
+    pre.append(z3.ForAll([q], z3.And(kind(q) >= 0, kind(q) <= 2, lo(q) >= 0, hi(q) >= 0)))
+    return dict(kind=kind, lo=lo, hi=hi, n=n, LinesStr=LinesStr, FlatList=FlatList, pre=pre)
+
+
+def line_range_unit(res):
+    """P: get_line_range (real code) for a --lines string with ANY number of items: the result is the concatenation, in order,
+    of the expansions of the items (single number -> that number; a-b and a:b -> a, a+1, ..., b); no item raises."""
+    ex = Engine([REPO + "/" + OS])
+    fn = ex.funcs["get_line_range"]
+    ex.index_loops(fn)
+    G = lines_ghost()
+    FlatList = G["FlatList"]
+
+    class Hook:
+        def pre_havoc(self, ex_, env):
+            if isinstance(env.get("lines_int"), list) and not env["lines_int"]:
+                env["lines_int"] = FlatList()
+
+    def inv(ex_, env, k):
+        v = env.get("lines_int")
+        if isinstance(v, list) and not v:
+            return k == 0
+        return v.count == k if isinstance(v, FlatList) else z3.BoolVal(False)
+
+    ex.loop_hooks[("get_line_range", 0)] = Hook()
+    ex.invariants[("get_line_range", 0)] = inv
+    paths = ex.explore(lambda: ex.call_function("get_line_range", [G["LinesStr"]()]), G["pre"])
+    res.add_paths(paths, lambda v, p: v.count == G["n"] if isinstance(v, FlatList) else False, kind="post")
+    return res
+
+
+def inspect_selection_unit(res):
+    """P: osaca.inspect (real code, up to the point where the machine model is loaded) for parsed files of ANY length:
+    with --lines the kernel is exactly the parsed lines, in file order, whose number is named by an item of the string
+    (get_line_range runs inline on the ghost string) and no length warning is given; without --lines the kernel is
+    reduce_to_section(parsed_code, isa) and the length warning is set iff nothing was cut and the kernel has > 100 lines;
+    the no-micro-architecture warning flag is set iff --arch was not given."""
+    ex = Engine([REPO + "/" + OS])
+    ex.eval_print_args = True
+    ex.index_loops(ex.funcs["get_line_range"])
+    G = lines_ghost()
+    FlatList, kind, lo, hi, n = G["FlatList"], G["kind"], G["lo"], G["hi"], G["n"]
+
+    class Hook:
+        def pre_havoc(self, ex_, env):
+            if isinstance(env.get("lines_int"), list) and not env["lines_int"]:
+                env["lines_int"] = FlatList()
+
+    def inv(ex_, env, k):
+        v = env.get("lines_int")
+        if isinstance(v, list) and not v:
+            return k == 0
+        return v.count == k if isinstance(v, FlatList) else z3.BoolVal(False)
+
+    ex.loop_hooks[("get_line_range", 0)] = Hook()
+    ex.invariants[("get_line_range", 0)] = inv
+    NP, NK = z3.Ints("n_parsed n_section")
+    lineno = z3.Function("line_number", I, I)
+    ins = Schema("pline", ["InstructionForm"], {"line_number": ("int",)})
+    ins.fn["line_number"] = lineno
+    parsed = SymSeq(NP, lambda i: SRef(i, ins))
+    section = SymSeq(NK, lambda i: SRef(z3.Function("section_line", I, I)(i), ins))
+    for with_lines in (False, True):
+        for with_arch in (False, True):
+            def run():
+                code = Opaque("code")
+
+                class File:
+                    def sym_method(self, ex_, name, args, kw):
+                        if name == "read":
+                            return code
+                        raise Unsupported("file." + name)
+
+                    def sym_getattr(self, ex_, attr):
+                        return "file.s" if attr == "name" else PyMethod(self, attr)
+
+                class Parser:
+                    def sym_method(self, ex_, name, args, kw):
+                        if name == "parse_file" and args[0] is code:
+                            return parsed
+                        raise Unsupported("parser." + name)
+
+                args = SObj("Namespace", file=File(), arch="zen2" if with_arch else None, verbose=SBool(z3.Bool("verbose")), ignore_unknown=SBool(z3.Bool("ignore_unknown")),
+                            lines=G["LinesStr"]() if with_lines else None, fixed=SBool(z3.Bool("fixed")), lcd_timeout=SNum(z3.Int("lcd_timeout"), True),
+                            consider_flag_deps=SBool(z3.Bool("flag_deps")), dotpath=None, yaml_out=Opaque("yaml stream") if with_arch else None)
+                ex.abstract["get_asm_parser"] = lambda ex_, so, a, kw: Parser()
+                seen = {}
+
+                class BaseParserG:
+                    def sym_method(self, ex_, name, a, kw):
+                        if name == "detect_ISA" and a[0] is code:
+                            return "x86"
+                        raise Unsupported("BaseParser." + name)
+
+                class MachineModelG:
+                    def sym_method(self, ex_, name, a, kw):
+                        if name == "get_isa_for_arch":
+                            seen["isa_for"] = a[0]
+                            return "x86"
+                        raise Unsupported("MachineModel." + name)
+
+                    def __call__(self, ex_, *a, **kw):
+                        return mm(ex_, None, list(a), kw)
+
+                class Rec:  # ghost for the collaborators after model loading: records the calls
+                    def __init__(self, what):
+                        self.what = what
+
+                    def sym_method(self, ex_, name, a, kw):
+                        log.append((self.what, name, list(a), dict(kw)))
+                        return Opaque(self.what + "." + name)
+
+                    def sym_getattr(self, ex_, attr):
+                        if attr == "timed_out":
+                            return timed_out
+                        return PyMethod(self, attr)
+
+                def ctor(what):
+                    def c(ex_, *a, **kw):
+                        log.append((what, "__init__", list(a), dict(kw)))
+                        r = Rec(what)
+                        made[what] = r
+                        return r
+                    return c
+
+                log, made = [], {}
+                timed_out = SBool(z3.Bool("lcd_timed_out"))
+                ex.names.update(ArchSemantics=ctor("ArchSemantics"), KernelDG=ctor("KernelDG"), Frontend=ctor("Frontend"), YAML=ctor("YAML"))
+
+                ex.names.update(BaseParser=BaseParserG(), MachineModel=MachineModelG(), DEFAULT_ARCHS={"x86": "zen2", "aarch64": "a64fx"})
+
+                def rts(ex_, so, a, kw):
+                    seen["rts"] = (a[0], a[1])
+                    return section
+
+                def mm(ex_, so, a, kw):
+                    env = ex_.cur_env
+                    ex_.extra.update(kernel=env["kernel"], plw=env["print_length_warning"], paw=env["print_arch_warning"], rts=seen.get("rts"), log=log, made=made,
+                                     timed_out=timed_out, mm_args=(list(a), dict(kw)))
+                    made["MachineModel"] = Rec("MachineModel")
+                    return made["MachineModel"]
+
+                ex.abstract["reduce_to_section"] = rts
+                ex.call_function("inspect", [args])
+
+            paths = ex.explore(run, G["pre"] + [NP >= 0, NK >= 0, NK <= NP])
+            tag = f"lines={int(with_lines)}/arch={int(with_arch)}"
+            got = 0
+            for p in paths:
+                if "kernel" not in p.extra:
+                    if p.outcome[0] == "exc":
+                        res.add(f"exception-freedom[{tag}]", p.pc, False).update(detail=str(p.outcome[1:]))
+                    continue
+                got += 1
+                k, plw, paw = p.extra["kernel"], p.extra["plw"], p.extra["paw"]
+                res.add(f"arch-warning-iff-no---arch[{tag}]", p.pc, (paw is True) == (not with_arch) and isinstance(paw, bool))
+                if with_lines:
+                    ok = isinstance(k, SymSeq) and getattr(k, "filter_of", None) is not None and k.filter_of[0] is parsed and plw is False
+                    res.add(f"selection-is-a-filter-of-the-parsed-lines-in-file-order[{tag}]", p.pc, bool(ok))
+                    if ok:
+                        _, idx, L, pred = k.filter_of
+                        j, q = z3.Ints("j q")
+                        named = lambda x: z3.Exists([q], z3.And(0 <= q, q < n, x >= lo(q), x <= z3.If(kind(q) == 0, lo(q), hi(q))))
+                        res.add(f"selected-iff-named-by-an-item[{tag}]", list(p.pc) + [0 <= j, j < NP], pred(j) == named(lineno(j)))
+                        res.add(f"kernel-element-is-the-selected-line-itself[{tag}]", list(p.pc) + [0 <= j, j < L], k.at(j).t == idx(j))
+                else:
+                    ok = k is section and p.extra["rts"] is not None and p.extra["rts"][0] is parsed and p.extra["rts"][1] == "x86"
+                    res.add(f"kernel-is-reduce_to_section(parsed, isa)[{tag}]", p.pc, bool(ok))
+                    want = z3.And(NK == NP, NK > 100)
+                    res.add(f"length-warning-iff-whole-file-and->100-lines[{tag}]", p.pc, (bool_term(plw) == want) if not isinstance(plw, bool) else (z3.BoolVal(plw) == want))
+                # ---- wiring of the rest of inspect: the SAME kernel object goes through semantics, (two) balancing passes
+                # unless --fixed, graph construction and both reports; the warning flags and options are handed on unchanged
+                log, made = p.extra["log"], p.extra["made"]
+                fixed, ign, verb = z3.Bool("fixed"), z3.Bool("ignore_unknown"), z3.Bool("verbose")
+                calls = [(w, m) for w, m, a, kw in log]
+                opt = [e for e in log if e[1] == "assign_optimal_throughput"]
+                sem_ok = [e for e in log if e[:2] == ("ArchSemantics", "add_semantics")]
+                w = []
+                w.append(p.extra["mm_args"][1].get("arch") == ("zen2") and not p.extra["mm_args"][0])
+                w.append(len(sem_ok) == 1 and sem_ok[0][2][0] is k)
+                w.append(all(e[2][0] is k for e in opt) and len(opt) in (0, 2))
+                kd = [e for e in log if e[:2] == ("KernelDG", "__init__")]
+                w.append(len(kd) == 1 and kd[0][2][0] is k and kd[0][2][2] is made.get("MachineModel") and kd[0][2][3] is made.get("ArchSemantics"))
+                fa = [e for e in log if e[:2] == ("Frontend", "full_analysis")]
+                fd = [e for e in log if e[:2] == ("Frontend", "full_analysis_dict")]
+                w.append(len(fa) == 1 and fa[0][2][0] is k and fa[0][2][1] is made.get("KernelDG") and fa[0][3].get("arch_warning") is paw and fa[0][3].get("length_warning") is plw
+                         and fa[0][3].get("lcd_warning") is p.extra["timed_out"])
+                w.append(len(fd) == (1 if with_arch else 0) and all(e[2][0] is k and e[2][1] is made.get("KernelDG") and e[3].get("arch_warning") is paw
+                                                                   and e[3].get("length_warning") is plw and e[3].get("lcd_warning") is p.extra["timed_out"] for e in fd))
+                order = [c for c in calls if c in (("ArchSemantics", "add_semantics"), ("ArchSemantics", "assign_optimal_throughput"), ("KernelDG", "__init__"), ("Frontend", "full_analysis"))]
+                w.append(order == sorted(order, key=lambda c: [("ArchSemantics", "add_semantics"), ("ArchSemantics", "assign_optimal_throughput"), ("KernelDG", "__init__"), ("Frontend", "full_analysis")].index(c)))
+                res.add(f"wiring/same-kernel-object-and-flags-handed-on[{tag}]", p.pc, bool(all(w))).update(detail=None if all(w) else f"clauses {w}")
+                res.add(f"wiring/two-balancing-passes-iff-not---fixed[{tag}]", p.pc, z3.BoolVal(len(opt) == 2) == z3.Not(fixed))
+                if fa:
+                    iu, vb = fa[0][3].get("ignore_unknown"), fa[0][3].get("verbose")
+                    res.add(f"wiring/options-handed-on[{tag}]", p.pc, z3.And(bool_term(iu) == ign, bool_term(vb) == verb) if iu is not None and vb is not None else False)
+                    flagdeps = kd[0][2][5] if kd and len(kd[0][2]) > 5 else (kd[0][3].get("flag_dependencies") if kd else None)
+                    tmo = kd[0][2][4] if kd and len(kd[0][2]) > 4 else (kd[0][3].get("timeout") if kd else None)
+                    res.add(f"wiring/graph-options[{tag}]", p.pc, z3.And(bool_term(flagdeps) == z3.Bool("flag_deps"), num_term(tmo)[0] == z3.Int("lcd_timeout")) if flagdeps is not None and tmo is not None else False)
+            res.add(f"reaches-the-reports[{tag}]", [], got >= 1)
+    return res
+
+
 def units(tier):
     from .c01 import tp_lt_trivial_unit
     AS = "osaca/semantics/arch_semantics.py"
@@ -219,6 +517,8 @@ def units(tier):
         Unit("C11/match_bytes", match_bytes_unit, "Pb", [(MU, "match_bytes")]),
         Unit("C11/marker-constants+reduce_to_section", constants_unit, "P", [(MU, "find_marked_kernel_x86ATT"), (MU, "find_marked_kernel_AArch64"), (MU, "reduce_to_section")]),
         Unit("C11/transparency/assign_tp_lt(no mnemonic)", tp_lt_trivial_unit, "P", [(AS, "ArchSemantics.assign_tp_lt")]),
+        Unit("C11/get_line_range(any number of items)", line_range_unit, "P", [(OS, "get_line_range")]),
+        Unit("C11/inspect/kernel-selection(any file length)", inspect_selection_unit, "P", [(OS, "inspect"), (OS, "get_line_range")]),
         bounded_unit("C11/selection-and-transparency-end-to-end", "c11_select", [(OS, "inspect"), (OS, "get_line_range"), (MU, "reduce_to_section"),
                      ("osaca/parser/base_parser.py", "BaseParser.parse_file")], timeout=2400),
     ]
